@@ -18,7 +18,7 @@ Fixpoint wt (d : doc) : nat :=
   | Fill l => S ((fix sum (l : list doc) : nat := match l with [] => O | x :: tl => (S (wt x) + sum tl)%nat end) l)
   | Nest _ x | Group x | AlwaysBreak x => S (wt x)
   | Annot _ x | Align x => S (S (wt x))
-  | FlatChoice b f | FCN b f => S (wt b + wt f)
+  | FlatChoice b f | FCN b f => S (Nat.max (wt b) (wt f))
   | CtxS p => S (cb p)
   | _ => 1%nat
   end.
